@@ -260,6 +260,203 @@ def run_case(entry, el, case, fresh_el=None):
 
 
 # ---------------------------------------------------------------------------------------------
+# widened linearity oracle: inputs of very different magnitude, structured supports, zero inputs
+
+STRUCTURES = ('dense', 'pixels', 'fourier', 'halves', 'polarisation', 'modes', 'own-modes', 'sparse', 'zero')
+RATIO_EXPS_FAINT = (-17, -24, -30)          # amplitude ratios 7.6e-6, 6e-8, 9e-10
+RATIO_EXPS_ALL = (0, -3, -10, -17, -24, -30, -40)      # 1 ... 9e-13
+A_EXPS = (-20, -10, -3, 0, 3, 10, 20)       # |a| from 1e-6 to 1e6
+WIDE_REL = 1e-6          # residual allowed relative to the SMALLER of the two terms' outputs
+WIDE_FLOOR = 1e-13       # rounding floor relative to the size of the computation (see wide_tolerance)
+
+
+def place(vec, kind, comp):
+    """Put the N-vector `vec` into tensor component number `comp` of an otherwise zero field of this kind."""
+    n = vec.shape[0]
+    if kind == 'scalar':
+        return np.array(vec, dtype=complex)
+    if kind == 'vector':
+        out = np.zeros((2, n), dtype=complex)
+        out[comp % 2] = vec
+        return out
+    out = np.zeros((2, 2, n), dtype=complex)
+    out[(comp // 2) % 2, comp % 2] = vec
+    return out
+
+
+def ncomp(kind):
+    return {'scalar': 1, 'vector': 2, 'tensor': 4}[kind]
+
+
+def fourier_mode(grid, kx, ky):
+    n = grid.size
+    idx = np.arange(n)
+    if grid.is_regular and grid.ndim == 2:
+        nx, ny = int(grid.dims[0]), int(grid.dims[1])
+        return np.exp(2j * np.pi * (kx * (idx % nx) / nx + ky * (idx // nx) / ny))
+    return np.exp(2j * np.pi * kx * idx / n)
+
+
+def wide_inputs(rng, entry, el, grid, kind, wl, structure):
+    """(E1, E2) as complex arrays of the field shape of `kind`, both of unit order of magnitude; the caller scales them.
+    Returns None when the structure does not exist for this entry/kind (e.g. polarisation on a scalar wavefront)."""
+    n = grid.size
+    shape = registry.field_shape(grid, kind)
+    nc = ncomp(kind)
+    if structure == 'dense':
+        return registry.dyadic_complex(rng, shape), registry.dyadic_complex(rng, shape)
+    if structure == 'pixels':
+        i = int(rng.integers(n))
+        j = int(rng.integers(n))
+        if n > 1:
+            while j == i:
+                j = int(rng.integers(n))
+        e1 = np.zeros(n, dtype=complex); e1[i] = 1.0 + 0.5j
+        e2 = np.zeros(n, dtype=complex); e2[j] = -0.75 + 1.0j
+        return place(e1, kind, int(rng.integers(nc))), place(e2, kind, int(rng.integers(nc)))
+    if structure == 'fourier':
+        k = [int(v) for v in rng.integers(-3, 4, size=4)]
+        if (k[0], k[1]) == (k[2], k[3]):
+            k[2] += 1
+        return (place(fourier_mode(grid, k[0], k[1]), kind, int(rng.integers(nc))),
+                place(fourier_mode(grid, k[2], k[3]), kind, int(rng.integers(nc))))
+    if structure == 'halves':
+        if n < 2:
+            return None
+        mask = np.zeros(n, dtype=bool)
+        mask[rng.permutation(n)[: n // 2]] = True
+        if rng.random() < 0.5 and grid.ndim == 2:
+            mask = np.asarray(grid.x) < np.median(np.asarray(grid.x))
+            if mask.all() or not mask.any():
+                mask = np.arange(n) < n // 2
+        E1 = registry.dyadic_complex(rng, shape) * mask
+        E2 = registry.dyadic_complex(rng, shape) * (~mask)
+        return E1, E2
+    if structure == 'polarisation':
+        if kind == 'scalar':
+            return None
+        c1 = int(rng.integers(nc))
+        c2 = (c1 + 1 + int(rng.integers(nc - 1))) % nc
+        return (place(registry.dyadic_complex(rng, (n,)), kind, c1), place(registry.dyadic_complex(rng, (n,)), kind, c2))
+    if structure in ('modes', 'own-modes'):
+        M, own = registry.element_modes(entry, el, grid, wl)
+        if structure == 'own-modes':
+            if own == 0:
+                return None
+            M = M[:, :own]
+        k = M.shape[1]
+        i = int(rng.integers(k))
+        j = int(rng.integers(k))
+        if k > 1:
+            while j == i:
+                j = int(rng.integers(k))
+        c = int(rng.integers(nc))
+        return place(M[:, i], kind, c), place(M[:, j] * (0.5 - 1.0j), kind, c if rng.random() < 0.7 else int(rng.integers(nc)))
+    if structure == 'sparse':
+        E1 = registry.dyadic_complex(rng, shape) * (rng.random(shape) < 2.0 / max(n, 2))
+        E2 = registry.dyadic_complex(rng, shape) * (rng.random(shape) < 0.3)
+        return E1, E2
+    if structure == 'zero':
+        which = int(rng.integers(3))
+        E1 = registry.dyadic_complex(rng, shape)
+        E2 = registry.dyadic_complex(rng, shape)
+        if which == 0:
+            E2 = np.zeros(shape, dtype=complex)
+        elif which == 1:
+            E1 = np.zeros(shape, dtype=complex)
+        else:
+            E1 = np.zeros(shape, dtype=complex)
+            E2 = np.zeros(shape, dtype=complex)
+        return E1, E2
+    raise MachineryError('unknown structure %r' % structure)
+
+
+def wide_tolerance(nu, nv, nin, gain):
+    """Allowed max-norm of f(aE1+E2) - a f(E1) - f(E2).
+    nu = |a f(E1)|, nv = |f(E2)| (max norms), nin = |a||E1| + |E2| (max norms of the inputs),
+    gain = the largest |f(E)|/|E| seen for this element/direction/kind (at least 1).
+    The first term is the tolerance proper (relative to the smaller output); the second is the floor below which
+    rounding in float64 cannot be told from a defect (relative to the size of the whole computation)."""
+    return WIDE_REL * min(nu, nv) + WIDE_FLOOR * max(nu, nv, gain * nin)
+
+
+def run_wide(entry, el, case, gains):
+    """Linearity with very different magnitudes and structured supports. Returns (bad, measured) where measured is the
+    residual normalised by the rounding-floor denominator (for calibration in the evidence)."""
+    import hcipy
+    kind, direction, wl, structure = case['kind'], case['direction'], case['wavelength'], case['structure']
+    rng = case_rng(case)
+    grid = entry.input_grid if direction == 'forward' else entry.output_grid
+    conj = entry.conj_forward if direction == 'forward' else entry.conj_backward
+    tag = '%s %s %s' % (entry.cls.__name__, direction, kind)
+    bad = []
+    pair = wide_inputs(rng, entry, el, grid, kind, wl, structure)
+    if pair is None:
+        return bad, None
+    E1, E2 = pair
+    rexp = int(case['ratio_exp'])
+    aexp = int(case['a_exp'])
+    faint = case['faint']
+    a = complex([1.0, -1.0, 0.0, 0.75][int(rng.integers(4))], [0.5, 1.0, -1.0, 0.0][int(rng.integers(4))]) * 2.0 ** aexp
+    if a == 0:
+        a = 2.0 ** aexp
+    # the two *terms* a*E1 and E2 get the amplitude ratio 2^rexp: scale whichever is to be faint
+    if faint == 'E2':
+        E2 = E2 * (abs(a) * 2.0 ** rexp)
+    else:
+        E2 = E2 * (abs(a) * 2.0 ** (-rexp))
+    stokes = registry.STOKES[int(rng.integers(len(registry.STOKES)))]
+    E3 = a * E1 + E2
+    key = 'linearity-wide:%s %s' % (structure, tag)
+
+    def fail(what):
+        bad.append((key, 'linearity (%s inputs, |a|=2^%d, amplitude ratio of the two terms 2^%d, faint term %s): %s [%s, wavelength %g]' % (
+            structure, aexp, rexp, faint, what, entry.name, wl)))
+    try:
+        outs = []
+        for E in (E1, E2, E3):
+            wf = make_wf(hcipy.Field(np.ascontiguousarray(E), grid), kind, wl, stokes)
+            o, _ = call(el, direction, wf)
+            outs.append(out_arrays(o))
+    except Exception as ex:     # noqa
+        bad.append(('raises %s' % tag, 'raises: %s raised %s on %s inputs: %s [%s]' % (direction, type(ex).__name__, structure, str(ex)[:120], entry.name)))
+        return bad, None
+    o1, o2, o3 = outs
+    if not (len(o1) == len(o2) == len(o3)) or any(x.shape != y.shape or x.shape != z.shape for x, y, z in zip(o1, o2, o3)):
+        fail('output shapes differ between inputs')
+        return bad, None
+    if not all(np.all(np.isfinite(x)) for o in outs for x in o):
+        fail('non-finite result')
+        return bad, None
+    aa = np.conj(a) if conj else a
+    nE1, nE2 = maxabs(E1), maxabs(E2)
+    gkey = (case['registry'], entry.name, direction, kind)
+    g = gains.get(gkey, 1.0)
+    for E, o in ((E1, o1), (E2, o2), (E3, o3)):
+        ne = maxabs(E)
+        if ne > 0:
+            g = max(g, max(maxabs(x) for x in o) / ne)
+        elif any(maxabs(x) != 0 for x in o):
+            fail('%s(0) is not 0 (max %.3g)' % (direction, max(maxabs(x) for x in o)))
+    gains[gkey] = g
+    worst = 0.0
+    for x, y, z in zip(o1, o2, o3):
+        r = maxabs(z - aa * x - y)
+        nu, nv = abs(a) * maxabs(x), maxabs(y)
+        nin = abs(a) * nE1 + nE2
+        tol = wide_tolerance(nu, nv, nin, g)
+        denom = max(nu, nv, g * nin)
+        if denom > 0:
+            worst = max(worst, r / denom)
+        if r > tol:
+            fail('%s(a E1 + E2) - %s %s(E1) - %s(E2) has max norm %.3g; allowed %.3g = %.0e*min(|a f(E1)|=%.3g, |f(E2)|=%.3g) + %.0e*%.3g' % (
+                direction, 'conj(a)' if conj else 'a', direction, direction, r, tol, WIDE_REL, nu, nv, WIDE_FLOOR, denom))
+            break
+    return bad, worst
+
+
+
+# ---------------------------------------------------------------------------------------------
 # model correspondence: effect programs
 
 def effect_program(entry, el, direction, kind):
@@ -562,6 +759,29 @@ def plan(ctx):
                             idx += 1
                             cases.append({'entry': e.name, 'kind': kind, 'direction': direction, 'wavelength': wl, 'registry': k,
                                           'reg_seed': reg_seed, 'data_seed': [ctx.seed, 6, 1, idx], 'sparse': bool(r % 2), 'round': r})
+    # widened linearity: per entry x kind x direction, every input structure with (a) a faint term (amplitude ratio
+    # <= 2^-17) and (b) a ratio / |a| drawn from the whole range
+    wrng = np.random.default_rng([ctx.seed, 6, 2])
+    per_structure = ctx.scale(2, 6)
+    for k, entries in enumerate(registries):
+        for e in entries:
+            for direction in ('forward', 'backward'):
+                kinds = e.kinds if direction == 'forward' else e.backward_kinds
+                for kind in kinds:
+                    for structure in STRUCTURES:
+                        if structure == 'polarisation' and kind == 'scalar':
+                            continue
+                        if structure == 'own-modes' and e.modes is None:
+                            continue
+                        for j in range(per_structure):
+                            idx += 1
+                            rexp = RATIO_EXPS_FAINT[int(wrng.integers(len(RATIO_EXPS_FAINT)))] if j % 2 == 0 else \
+                                RATIO_EXPS_ALL[int(wrng.integers(len(RATIO_EXPS_ALL)))]
+                            cases.append({'mode': 'wide', 'entry': e.name, 'kind': kind, 'direction': direction,
+                                          'wavelength': e.wavelengths[int(wrng.integers(len(e.wavelengths)))], 'registry': k,
+                                          'reg_seed': [ctx.seed, 6, 0, k], 'data_seed': [ctx.seed, 6, 3, idx], 'structure': structure,
+                                          'ratio_exp': rexp, 'a_exp': A_EXPS[int(wrng.integers(len(A_EXPS)))],
+                                          'faint': 'E2' if wrng.random() < 0.6 else 'E1', 'round': 0})
     return registries, cases
 
 
@@ -571,7 +791,15 @@ def run(ctx):
                 'wavelength, random dyadic complex fields E1, E2 and a dyadic complex factor a: before/after snapshot of the '
                 'input, repeated call, call after a different wavefront, fresh-element comparison, linearity (conjugate-linearity '
                 'for the fibre-injection forward). Non-trivial = the result is finite and not identically zero; distinct by '
-                '(entry, kind, direction, wavelength, dense/sparse input).')
+                '(entry, kind, direction, wavelength, dense/sparse input). WIDENED LINEARITY, for every entry x kind x direction: '
+                'input pairs of the structures dense / two single pixels / two single Fourier modes / complementary pixel sets / '
+                'different polarisation components / two basis modes (the element\'s own exposed modes — fibre modes, mirror '
+                'influence functions, coronagraph mode basis, lenslet cells, corrected modes — and low-order polynomials) / sparse / '
+                'zero, with |a| in 2^{-20..20} (1e-6..1e6) and the amplitude ratio of the two terms a*E1 : E2 in 2^{0..-40} '
+                '(1..9e-13; every structure is run at least once with a ratio <= 2^-17, either term may be the faint one). '
+                'Rule: max|f(aE1+E2) - a f(E1) - f(E2)| <= 1e-6*min(|a f(E1)|, |f(E2)|) + 1e-13*max(|a f(E1)|, |f(E2)|, g*(|a||E1|+|E2|)) '
+                'in max norms, g = largest |f(E)|/|E| seen for that element/direction/kind (>= 1): the residual is judged '
+                'against the SMALLER term, the second summand is the float64 rounding floor of the whole computation; f(0) must be exactly 0.')
     ctx.assumptions += ['element-internal caches are exercised behaviourally only (C05 models them)',
                         'float arithmetic on the generated dyadic fields (a*E1+E2) is exact',
                         'sub-propagators probed as dense matrices are linear (checked by their own registry entries)']
@@ -585,6 +813,9 @@ def run(ctx):
     ctx.extra['classes_covered'] = sorted(set(e.cls.__name__ for e in entries))
     ctx.extra['entry_notes'] = {e.name: e.notes for e in entries if e.notes}
     elements = {}
+    gains = {}
+    wide_worst = {}
+    ctx.extra['wide_worst_residual_over_floor_denominator'] = wide_worst
     fresh_done = set()
     requests = []        # (line, kind-of-request, payload)
     denote_done = set()
@@ -598,6 +829,22 @@ def run(ctx):
             except Exception as ex:     # noqa
                 raise MachineryError('registry entry %s cannot be constructed: %s: %s' % (e.name, type(ex).__name__, ex))
         el = elements[ekey]
+        if case.get('mode') == 'wide':
+            bad, worst = run_wide(e, el, case, gains)
+            for key, what in bad:
+                ctx.violation(key, what, case)
+            if worst is None and not bad:
+                ctx.count('wide-structure-not-applicable')
+                continue
+            ctx.count('wide:' + case['structure'])
+            ctx.count('wide-ratio:2^%d' % case['ratio_exp'])
+            ctx.count('wide-|a|:2^%d' % case['a_exp'])
+            ctx.count('wide-failed' if bad else 'wide-ok')
+            if worst is not None:
+                wide_worst[case['structure']] = max(wide_worst.get(case['structure'], 0.0), worst)
+            ctx.case(None, nontrivial_key=('wide', case['registry'], e.name, case['kind'], case['direction'], case['structure'],
+                                           case['ratio_exp'], case['a_exp'], case['faint']))
+            continue
         fkey = (case['registry'], e.name, case['kind'], case['direction'], case['wavelength'])
         fresh = None
         if fkey not in fresh_done:
@@ -672,6 +919,11 @@ def run(ctx):
 def replay(ctx, case):
     e = find_entry(case)
     el = e.factory()
+    if case.get('mode') == 'wide':
+        bad, _ = run_wide(e, el, case, {})
+        for key, what in bad:
+            print('  fails:', key, '-', what)
+        return not bad
     bad, _ = run_case(e, el, case, e.factory())
     for key, what in bad:
         print('  fails:', key, '-', what)
